@@ -157,12 +157,20 @@ def oracle(values, obs):
     if not close(obs['mean'], mean, mag / n):
         bad.append('mean %r != %s' % (obs['mean'], mean))
     pvar = statistics.pvariance(fr)
-    if not close_var(obs['variance-n'], pvar, fr):
+    judged = squares_are_floats(fr)
+    if judged and not close_var(obs['variance-n'], pvar, fr):
         bad.append('variance-n %r != %s (= %r)' % (obs['variance-n'], pvar, float(pvar)))
-    if not close_sd(obs['standard-deviation-n'], pvar, fr):
+    if judged and not close_sd(obs['standard-deviation-n'], pvar, fr):
         bad.append('standard-deviation-n %r != sqrt(%s) (= %r)' % (obs['standard-deviation-n'], pvar,
                                                                    math.sqrt(pvar)))
-    if n > 1:
+    if not judged:
+        # the second moment is no float: the four variance variables only have to have *a* numeric value
+        for k in ('variance-n', 'standard-deviation-n') + (('variance', 'standard-deviation') if n > 1 else ()):
+            if not isinstance(obs[k], (int, float)) or isinstance(obs[k], bool):
+                bad.append('%s %r is not a number' % (k, obs[k]))
+    if n > 1 and not judged:
+        pass
+    elif n > 1:
         var = statistics.variance(fr)
         if not close_var(obs['variance'], var, fr, 2):
             bad.append('variance %r != %s (= %r)' % (obs['variance'], var, float(var)))
@@ -188,6 +196,15 @@ def oracle(values, obs):
         except Exception:
             bad.append('median %r not a number' % (m,))
     return bad
+
+
+def squares_are_floats(fr):
+    """variance / standard deviation are judged iff the sum of squares of the column lies inside the float range
+    with the full precision (1e-280 .. 1e300, or 0): beyond it the value of the one-pass formula the property
+    describes is not a float (DESIGN: floating point is runtime, partial).  Decided on the input alone; count,
+    total, min, max, mean and median of such a column are floats and stay fully judged."""
+    s2 = sum(x * x for x in fr)
+    return s2 == 0 or Fraction(1, 10 ** 280) <= s2 <= 10 ** 300
 
 
 def close_var(a, b, fr, k=1):
@@ -244,7 +261,14 @@ KEY_ONLY_NAMES = ['unit price', 'Größe', '2nd', 'a.b', ' ']     # mapping keys
 # column 'index' next to a second column named like an attribute of the variables object (see gen_wide).
 WIDE_STRINGS = ['apple', 'Banana', 'cherry', '10', '9', '', '', ' ', '0', 'éclair', 'z', 'apple ']
 FLOATS = [0.5, 0.6, 1.25, 2.5, -3.75, 100.125, 0.1, 7.0, 0.0, -0.5]
-NUMERIC_KINDS = ['int', 'smallint', 'float', 'numix', 'scaled', 'scaled', 'bigint']
+NUMERIC_KINDS = ['int', 'smallint', 'float', 'numix', 'scaled', 'scaled', 'bigint', 'huge', 'hugemix', 'tiny',
+                 'hugeint']
+# the whole range of the number types: floats up to 1e300 / down to 1e-300 (their squares are no floats any more;
+# count, total, min, max, mean and median are), ints up to 1e140
+EXTREME_KINDS = ('huge', 'hugemix', 'tiny', 'hugeint')
+# every way an item of the sequence can have (or not have) its variable
+PROVIDERS = {'mapping': ['dict', 'dictsub', 'userdict', 'chainmap'],
+             'obj': ['inst', 'classattr', 'property', 'getattr', 'slots']}
 
 
 def machinery_names():
@@ -284,6 +308,16 @@ def gen_column(r, kind, n):
             vals.append(base * 10.0 ** k)
         elif kind == 'bigint':
             vals.append(r.randint(-big, big))
+        elif kind in ('huge', 'hugemix', 'tiny'):
+            if kind == 'hugemix' and r.random() < 0.5:
+                vals.append(r.choice([r.choice(FLOATS), float(r.randint(-50, 1000)), round(r.uniform(-10, 10), 3)]))
+            else:
+                e = r.randint(150, 299)
+                m = r.choice([1.0, round(r.uniform(1, 9.99), 3), float(r.randint(1, 9))]) * r.choice([1, 1, -1])
+                vals.append(m * 10.0 ** (-e if kind == 'tiny' else e))
+        elif kind == 'hugeint':
+            e = r.choice([r.randint(13, 140), 140, r.randint(60, 140)])
+            vals.append(r.choice([r.randint(-10 ** e, 10 ** e), 10 ** e, r.randint(-50, 1000)]))
         else:
             vals.append(r.choice(WIDE_STRINGS))
     # a column of nothing but None stays: count-x is then 0 and nothing else is defined
@@ -346,12 +380,91 @@ def gen_wide(r, names=None):
     r.shuffle(reads)
     reads += [r.choice(reads) for _ in range(r.randint(0, 4))]      # asked again later
     case['reads'] = reads
+    # how each item provides its variables (rows of different kinds in one sequence), and items that do not have
+    # a variable at all: such an item has no x value, it is not among the non-missing x values
+    case['providers'] = case['absent'] = None
+    if container != 'plain':
+        if r.random() < 0.4:
+            one = r.choice(PROVIDERS[container] + [None, None])
+            case['providers'] = [one or r.choice(PROVIDERS[container]) for _ in range(n)]
+        if r.random() < 0.35:
+            p = r.choice([0.15, 0.3, 0.6])
+            case['absent'] = [[r.random() < p for _ in range(n)] for _ in cols]
+            if r.random() < 0.3:
+                case['absent'][0][r.randrange(n)] = True
+            if container == 'obj':
+                # stat-item of an object without an attribute `item` is the statistic of the items themselves
+                # (the documented reading of plain sequences): a column called `item` always has its attribute
+                for i, c in enumerate(cols):
+                    if c == 'item':
+                        case['absent'][i] = [False] * n
     return case
 
 
 class Row:
     def __repr__(self):
-        return 'Row(%r)' % (sorted(vars(self).items()),)
+        return '%s(%r)' % (type(self).__name__, sorted(vars(self).items()),)
+
+
+class DictSub(dict):
+    def __getitem__(self, k):
+        return dict.__getitem__(self, k)
+
+
+class GetattrRow(Row):
+    def __init__(self, present):
+        self.__dict__['_store'] = dict(present)
+
+    def __getattr__(self, k):
+        try:
+            return self.__dict__['_store'][k]
+        except KeyError:
+            raise AttributeError(k)
+
+
+def _raiser(name):
+    def get(self):
+        raise AttributeError(name)
+    return get
+
+
+def _getter(value):
+    return lambda self: value
+
+
+def make_row(container, provider, present, absent_cols):
+    """one item of the sequence: `present` = {column: value}; the columns in absent_cols it does not have"""
+    import collections
+    if container == 'mapping':
+        if provider == 'dictsub':
+            return DictSub(present)
+        if provider == 'userdict':
+            return collections.UserDict(present)
+        if provider == 'chainmap':
+            return collections.ChainMap({}, dict(present))
+        return dict(present)
+    if provider == 'classattr':
+        return type('ClassAttrRow', (Row,), dict(present))()
+    if provider == 'property':
+        d = {c: property(_getter(v)) for c, v in present.items()}
+        d.update({c: property(_raiser(c)) for c in absent_cols})
+        return type('PropertyRow', (Row,), d)()
+    if provider == 'getattr':
+        return GetattrRow(present)
+    if provider == 'slots' and all(c.isidentifier() and not c.startswith('__') for c in list(present) + absent_cols):
+        class SlotBase:
+            __slots__ = ()
+
+            def __repr__(self):
+                return 'SlotRow(%r)' % ([(k, getattr(self, k)) for k in self.__slots__ if hasattr(self, k)],)
+        row = type('SlotRow', (SlotBase,), {'__slots__': tuple(sorted(list(present) + absent_cols))})()
+        for c, v in present.items():
+            setattr(row, c, v)
+        return row
+    row = Row()
+    for c, v in present.items():
+        setattr(row, c, v)
+    return row
 
 
 _TEMPLATES = {}
@@ -367,8 +480,17 @@ def wide_source(case):
     return '<dtml-in %s%s>%s</dtml-in>' % ('expr="L"' if case.get('by_expr') else 'L', attrs, body)
 
 
-def column_values(case, i):
+def raw_values(case, i):
     return case['values'] if i == 0 else case['second']['values']
+
+
+def column_values(case, i):
+    """the x values of the sequence as the property counts them: an item without x contributes no value"""
+    vals = raw_values(case, i)
+    ab = case.get('absent')
+    if ab:
+        return [None if ab[i][j] else v for j, v in enumerate(vals)]
+    return vals
 
 
 def observe_wide(case, fresh=False):
@@ -381,16 +503,12 @@ def observe_wide(case, fresh=False):
         L = list(case['values'])
     else:
         L = []
+        ab = case.get('absent')
+        prov = case.get('providers')
         for j in range(n):
-            if case['container'] == 'mapping':
-                row = {}
-                for i, c in enumerate(cols):
-                    row[c] = column_values(case, i)[j]
-            else:
-                row = Row()
-                for i, c in enumerate(cols):
-                    setattr(row, c, column_values(case, i)[j])
-            L.append(row)
+            present = {c: raw_values(case, i)[j] for i, c in enumerate(cols) if not (ab and ab[i][j])}
+            L.append(make_row(case['container'], prov[j] if prov else None, present,
+                              [c for c in cols if c not in present]))
     before = repr(L)
     rounds = []
 
@@ -464,7 +582,7 @@ def flat_obs(case, obs):
 
 
 def nums0(case):
-    return [v for v in case['values'] if v is not None]
+    return [v for v in column_values(case, 0) if v is not None]
 
 
 def wide_left_out(case):
@@ -484,8 +602,8 @@ def stats_request(vals):
 
 
 def case_json(case):
-    return {k: case[k] for k in ('kind', 'values', 'container', 'name', 'second', 'opts', 'by_expr', 'when',
-                                 'reads')}
+    return {k: case.get(k) for k in ('kind', 'values', 'container', 'name', 'second', 'opts', 'by_expr', 'when',
+                                     'reads', 'providers', 'absent')}
 
 
 def run(res, tier, have_driver):
@@ -496,7 +614,13 @@ def run(res, tier, have_driver):
                 'that is no identifier / any word the sequence machinery uses itself (number, odd, roman, index, '
                 'first, count, ... and every public attribute of the variables class); values of ordinary '
                 'magnitude, int/float mixes, one unit 1e-12 ... 1e12 per column, ints up to 1e12, columns of None '
-                'only (count 0, nothing else defined); in 40 % a second '
+                'only (count 0, nothing else defined); the whole range of the number types: floats 1e150 ... 1e300 '
+                'and 1e-150 ... 1e-300 alone and mixed with ordinary ones, ints up to 1e140 (variance / standard '
+                'deviation judged iff the sum of squares lies in 1e-280 ... 1e300, everything else always); rows '
+                'of every kind in one sequence (dict, dict subclass, UserDict, ChainMap; instance attribute, class '
+                'attribute, property, __getattr__, __slots__); items that do not have the variable at all (no key '
+                '/ no attribute / property raising AttributeError) at any position: they contribute no value, '
+                'exactly like None; in 40 % a second '
                 'column (own name, own kind) summarised in the same rendering, readings of both interleaved in '
                 'random order and some asked again; dtml-in options reverse, sort, sort_expr, reverse_expr, '
                 'prefix (variables then also read as prefix_stat_name), size/start/orphan/overlap (batch '
@@ -539,7 +663,7 @@ def run(res, tier, have_driver):
     # (b) wide
     rw = common.rng('C16-wide')
     names = machinery_names()
-    nw = 2500 if tier == 'quick' else 60000
+    nw = 3500 if tier == 'quick' else 60000
     wide = 0
     for _ in range(nw):
         case = gen_wide(rw, names)
@@ -567,16 +691,26 @@ def run(res, tier, have_driver):
             res.oracle_fail.append({'case': case_json(case), 'what': f,
                                     'obs': {'src': obs.get('src'),
                                             'first': {k: repr(v) for k, v in flat_obs(case, obs).items()}}})
-        nums = [v for v in case['values'] if v is not None]
+        nums = nums0(case)
+        if case.get('providers'):
+            res.count('wide rows of other kinds (dict subclass, UserDict, ChainMap / class attribute, property, '
+                      '__getattr__, slots)')
+        if case.get('absent'):
+            res.count('wide items without the variable')
+            if any(a and any(v is not None for v in column_values(case, 0)[j + 1:])
+                   for j, a in enumerate(case['absent'][0])):
+                res.count('wide item without the variable followed by items with a value')
+        if case['kind'] in EXTREME_KINDS and nums and not squares_are_floats([Fraction(v) for v in nums]):
+            res.count('wide column whose sum of squares is no float (variance not judged)')
         if case['kind'] != 'str' and len(nums) >= 2:
-            res.nt(json.dumps([case['name'], case['values']]))
+            res.nt(json.dumps([case['name'], column_values(case, 0)]))
         if wide in (1, 7, 40):
             res.sample({'wide': case_json(case), 'src': obs.get('src'),
                         'observation': {k: repr(v) for k, v in flat_obs(case, obs).items()}}, cap=8)
         if case['kind'] != 'str' and nums:
-            cases.append((case['kind'], case['values'], 'wide:' + obs.get('src', '')))
+            cases.append((case['kind'], column_values(case, 0), 'wide:' + obs.get('src', '')))
             obss.append(flat_obs(case, obs))
-            reqs.append((len(cases) - 1, stats_request(case['values'])))
+            reqs.append((len(cases) - 1, stats_request(column_values(case, 0))))
     res.extra['wide_cases'] = wide
     res.extra['compiled_templates_shared'] = len(_TEMPLATES)
 
@@ -609,9 +743,10 @@ def run(res, tier, have_driver):
                     continue
                 if fr(m[key]) is None or not close(obs[key], fr(m[key]), scale):
                     d.append('%s impl %r model %s' % (key, obs[key], fr(m[key])))
-            if not close_var(obs['variance-n'], fr(m['varN']), nums):
+            judged = squares_are_floats(nums)
+            if judged and not close_var(obs['variance-n'], fr(m['varN']), nums):
                 d.append('variance-n impl %r model %s' % (obs['variance-n'], fr(m['varN'])))
-            if m['var'] is not None and not close_var(obs['variance'], fr(m['var']), nums, 2):
+            if judged and m['var'] is not None and not close_var(obs['variance'], fr(m['var']), nums, 2):
                 d.append('variance impl %r model %s' % (obs['variance'], fr(m['var'])))
             if m['var'] is None and obs['variance'] != '':
                 d.append('variance defined for one value')
